@@ -489,4 +489,14 @@ def stack_chain(repo: Repo) -> RuleRun:
 
 stack_chain.rule_id = "C11.STACK-CHAIN"
 
-RULES = [quad_map_rule, chop_coverage, chop_role, radial_convention, chain_source, mirror_pairing, trig_domain, fill_conformal, arc_side, affine_kinds, stack_chain]
+def no_shared_parts(repo: Repo) -> RuleRun:
+    """A revolved shape stays on its circle when it is rotated afterwards: every side edge has its own Angle record. Same rule as C09.NO-SHARED-PARTS."""
+    from ..report import rebrand
+    from . import c09
+
+    return rebrand(c09.no_shared_parts(repo), PROP, "C11.NO-SHARED-PARTS")
+
+
+no_shared_parts.rule_id = "C11.NO-SHARED-PARTS"
+
+RULES = [quad_map_rule, chop_coverage, chop_role, radial_convention, chain_source, mirror_pairing, trig_domain, fill_conformal, arc_side, affine_kinds, stack_chain, no_shared_parts]
